@@ -288,7 +288,7 @@ class Norm:
         (also an `if` whose branches consist of such statements only)"""
         node = strip(node)
         for lid, effs in self.effects.items():
-            if lid in self.mut:
+            if lid in self.mut and lid not in self.syms:
                 for n, _k, _g in effs:
                     if n is node:
                         return True
